@@ -203,7 +203,7 @@ def _models(cfg):
             sim.fields["_solver_options"] = {}
             sim.fields["_backup_solver_options"] = {}
             sim.fields["_convergence_error"] = kw["convergence_error"]
-        reg(W._setup_sim_options, setup, verified_by="_setup_sim_options (report step is a positive multiple of the hydraulic step, or 'ALL')")
+        reg(W._setup_sim_options, setup, verified_by="wntr.sim.core:WNTRSimulator._setup_sim_options (contracts/c16_results.py)")
         for f in (W._get_control_managers, W._register_controls_with_observers, W._initialize_internal_graph, W._update_internal_graph):
             reg(f, lambda i, a, k: None)
         reg(W._get_time, lambda i, a, k: "<time>")
@@ -239,14 +239,14 @@ def _models(cfg):
             if g.fresh:
                 g.post_ran = g.post_ran == "postsolve" or g.post_ran is True
             return None
-        reg(W._run_feasibility_controls, feas)
+        reg(W._run_feasibility_controls, feas, verified_by="wntr.sim.core:WNTRSimulator._run_feasibility_controls (contracts/c05_runners.py)")
 
         def post(interp, args, kw):
             g = g_of(args[0])
             g.ob("postsolve_controls_see_a_freshly_stored_solution", g.fresh)
             g.post_ran = "postsolve"
             return None
-        reg(W._run_postsolve_controls, post)
+        reg(W._run_postsolve_controls, post, verified_by="wntr.sim.core:WNTRSimulator._run_postsolve_controls (contracts/c05_runners.py)")
         def get_isolated(interp, args, kw):
             # requires (entry of every call): the simulator's previously-isolated sets are exactly the elements whose stored
             # _is_isolated flag is set - the hydraulic model was built / last updated from those flags, and only the members of
@@ -314,7 +314,7 @@ def _models(cfg):
             g.ob("every_save_has_its_time_entry_when_results_are_assembled", g.pending is None)
             g.got_results = True
             return None
-        reg(hyd.get_results, get_results, verified_by="bounded: C16.get_results_shape")
+        reg(hyd.get_results, get_results, verified_by="wntr.sim.hydraulics:get_results (contracts/c16_results.py)")
         import warnings as _w
 
         def warn(interp, args, kw):
